@@ -1435,6 +1435,24 @@ impl ObservationService {
         let observation_request = Self::optic_observation_request(request)?;
         let artifact = Self::observe(runtime, provenance, engine, observation_request)
             .map_err(|err| Self::optic_observation_error(request, err))?;
+        if let EchoCoordinate::Worldline {
+            at: CoordinateAt::Provenance(reference),
+            ..
+        } = &request.coordinate
+        {
+            // A full provenance coordinate names one specific commit; the tick alone does not
+            // identify it, so a different commit recorded at that tick is not the named history.
+            if artifact.resolved.commit_hash != reference.commit_hash {
+                return Err(Self::optic_obstruction(
+                    request,
+                    OpticObstructionKind::MissingWitness,
+                    Some(WitnessBasis::Missing {
+                        reason: MissingWitnessBasisReason::EvidenceUnavailable,
+                    }),
+                    "provenance coordinate names a commit that is not recorded at that tick",
+                ));
+            }
+        }
         let witness_basis = Self::optic_witness_basis(provenance, request, &artifact)?;
         let read_identity = ReadIdentity::new(
             request.optic_id,
